@@ -556,9 +556,7 @@ class Fortran90OperatorsRule(GenericRule):  # Coding standards 4.15
         # automatically
         mapper = {}
         for report in rule_report.problem_reports:
-            new_expr = report.location
-            new_expr.update_metadata({'source': None})
-            mapper[report.location] = new_expr
+            mapper[report.location] = report.location.clone(source=None)
         return mapper
 
 
